@@ -290,9 +290,9 @@ def _mentioned(kind, rows, ops, F):
     return ps, gs
 
 
-def foreign_ops_aimed(rng, kind, uni, F, ps, gs, store, n_rows):
+def foreign_ops_aimed(rng, kind, uni, F, ps, gs, store, n_rows, extra=()):
     """one foreign step (a list of ops): a management call aimed at what is recorded for F, or a store-side change
-    of F followed by a reload"""
+    of F followed by a reload.  extra: further call names ("p_upd_f" = update_filtered_policies naming F only)"""
     def p(known=0.6):
         if ps and rng.random() < known:
             return list(rng.choice(ps))
@@ -314,7 +314,19 @@ def foreign_ops_aimed(rng, kind, uni, F, ps, gs, store, n_rows):
              "g_rm", "g_rm", "g_rm_many", "g_rm_f", "role_in_dom", "del_roles_in_dom", "perm", "q"]
     if store:
         names += ["st_add_p", "st_add_g", "st_del", "st_bad_g", "st_bad_g", "st_heal", "reload", "reload_fail"]
+    names += list(extra)
     c = rng.choice(names)
+    if c == "p_upd_f":
+        # "replace what is recorded for F (for F and one object) by these rules of F"
+        vs = [F] + ([rng.choice(uni.objs)] if rng.random() < 0.4 else [])
+        new = []
+        for _ in range(rng.randint(1, 3)):
+            r = p(0.3)
+            if len(vs) > 1:
+                r[kind.i_obj] = vs[1]
+            if r not in new:
+                new.append(r)
+        return [(8, new, kind.i_dom, vs)]
     if c == "p_add":
         return [(1, 0, p(0.2))]
     if c == "p_add_many":
@@ -372,17 +384,33 @@ def foreign_ops_aimed(rng, kind, uni, F, ps, gs, store, n_rows):
                         (57, rng.choice(uni.subs), F), (60, rng.choice(uni.subs), F), (70, rng.choice(uni.subs), F)])]
 
 
-def make_case_built(rng, kind, store):
+def universe(kind, doms=None):
     uni = mgmt.Universe(kind)
-    D, F = (A("d1"), A("d2")) if rng.random() < 0.5 else (A("d2"), A("d1"))
+    if doms:
+        uni.doms = [A(d) if isinstance(d, str) else d for d in doms]
+    return uni
+
+
+def d_probe_ext(kind, uni, D):
+    """the D-probe + the filtered getters asked for the domain column = D (p rules and role assignments)"""
+    return d_probe(kind, uni, D) + [(53, 0, kind.i_dom, [D]), (53, 1, 2, [D])]
+
+
+def make_case_built(rng, kind, store, doms=None, extra=(), ext_probe=False):
+    uni = universe(kind, doms)
+    if doms:
+        D, F = (uni.doms[0], uni.doms[1]) if rng.random() < 0.5 else (uni.doms[1], uni.doms[0])
+    else:
+        D, F = (A("d1"), A("d2")) if rng.random() < 0.5 else (A("d2"), A("d1"))
     gen = mgmt.Gen(rng, kind, PREFIX_W)
+    gen.uni = uni
     rows = gen.rows(rng.randint(1, 8))
     prefix = gen.history(rng.randint(2, 10), final_probe=False)
-    probe = d_probe(kind, uni, D)
+    probe = (d_probe_ext if ext_probe else d_probe)(kind, uni, D)
     ps, gs = _mentioned(kind, rows, prefix, F)
     ops = prefix + probe
     for _ in range(rng.randint(1, 8)):
-        ops += foreign_ops_aimed(rng, kind, uni, F, ps, gs, store, len(rows))
+        ops += foreign_ops_aimed(rng, kind, uni, F, ps, gs, store, len(rows), extra)
         if rng.random() < 0.3:
             ops += probe
     ops += probe
@@ -410,6 +438,10 @@ def spec_check_built(D, probe, sort_rules=False):
                 for rule in res[1]:
                     if rule[kind.i_dom] != D:
                         return [(i, "a domain-scoped query reports a rule recorded for another domain")]
+            if op[0] == 53 and res[0] == 0 and repr(tuple(op)) in keys:
+                for rule in res[1]:
+                    if len(rule) <= op[2] or rule[op[2]] != D:
+                        return [(i, "a getter filtered by the domain column reports a rule recorded for another domain")]
         # (a)
         i0 = next((i for i in range(n - plen + 1) if list(ops[i:i + plen]) == list(probe)), None)
         if i0 is None:
@@ -424,15 +456,18 @@ def spec_check_built(D, probe, sort_rules=False):
     return spec_check
 
 
-def stratum_built(chk, kind, variant, n, store, label):
+def stratum_built(chk, kind, variant, n, store, label, doms=None, extra=(), ext_probe=False, case_fn=None):
     rng = chk.rng
     kw = impl_kwargs_for(kind, variant)
     with_model = variant in ("plain", "pdom", "rolematcher") and not store
     cases = []
     for _ in range(n):
-        rows, D, F, probe, ops = make_case_built(rng, kind, store)
+        dd = doms(rng) if callable(doms) else doms
+        rows, D, F, probe, ops = (case_fn or make_case_built)(rng, kind, store, dd, extra, ext_probe)
         sc = spec_check_built(D, probe, sort_rules=variant.startswith("fast-"))
         sc.case_extra = dict(variant=variant, layout="built", D=D, model_compared=with_model)
+        if dd or ext_probe:
+            sc.case_extra.update(doms=[mgmt.ATOMS.s(A(d) if isinstance(d, str) else d) for d in (dd or [])], ext_probe=ext_probe)
         cases.append((rows, True, ops, sc))
     mgmt.run_cases(chk, kind, cases, None, label=label, impl_kwargs=kw, compare_model=with_model,
                    key_fn=lambda k, r, o, v=variant: (k.name, v, "built", repr(r), repr([x for x in o if x[0] < 50])))
@@ -465,6 +500,256 @@ def run_built(chk, n):
         chk.extra["strata"][f"foreign_dom_{variant.replace('-', '_')}"] = len(cases)
 
 
+# tenant names of which one is contained in the other (prefix, suffix, infix, letter case): whatever text-level shortcut a
+# getter, a filtered call or a key takes, they are different tenants.  Interned here so that atoms are the same in a replay.
+TENANT_PAIRS = [("d1", "d10"), ("d1", "xd1"), ("d", "d1"), ("eu", "eu-west"), ("1", "10"), ("d1", "D1"), ("a.b", "a.b.c"),
+                ("d1", "d2")]
+for _a, _b in TENANT_PAIRS:
+    A(_a), A(_b)
+# explicit priorities + domains: p = priority, sub, dom, obj, act, eft ; e = priority(p_eft) || deny.  The universe's
+# priorities 1, 2, 5, 10 have different digit counts: the order of D's own rules decides, and it is the numeric one.
+DOM_PRIO = mgmt.Kind("dom_prio", dom=True, g=True, eft=True, prio=True, eff=3)
+UPD_F = ("p_upd_f", "p_upd_f")
+
+
+def run_tenants(chk, n):
+    """built-state strata on (1) tenants whose names contain each other, with update_filtered_policies among the foreign
+    calls and the filtered getters in the probe, (2) the explicit-priority model with domains"""
+    dom = mgmt.KINDS["dom"]
+    stratum_built(chk, dom, "plain", n, False, "built-dom-contained-tenant-names",
+                  doms=lambda rng: rng.choice(TENANT_PAIRS), extra=UPD_F, ext_probe=True)
+    stratum_built(chk, mgmt.KINDS["dom_deny"], "plain", max(20, n // 3), False, "built-dom_deny-contained-tenant-names",
+                  doms=lambda rng: rng.choice(TENANT_PAIRS), extra=UPD_F, ext_probe=True)
+    stratum_built(chk, DOM_PRIO, "plain", n, False, "built-dom_prio", extra=UPD_F, ext_probe=True)
+    stratum_built(chk, DOM_PRIO, "plain", max(20, n // 3), True, "built-store-dom_prio")
+
+
+
+# ----------------------------------------------------------------------------- conditional role links with domains
+# g = _, _, _, (_, _): a role assignment carries a domain AND parameters of a condition function registered per
+# (user, role, domain) link (add_named_domain_link_condition_func); the ConditionalDomainManager keeps one conditional
+# manager per domain and hands every registration / parameter record to all of them.  Implementation-level SPEC (the
+# property, stated directly): after any interleaving of records of D and of the other domain - the SAME user -> role pair
+# assigned in both with different parameters or different condition functions, parameters of foreign links changed
+# later (set_named_domain_link_condition_func_params), foreign links deleted - every query of D answers exactly like
+# an enforcer that was given D's records only, in the same order; and scoped queries of D list only D's rules.
+C_NAMES = ["alice", "bob", "admin", "editor"]
+C_OBJS, C_ACTS = ["data1", "data2"], ["read"]
+C_PARAMS = {"flag": [["yes", "t1"], ["no", "t1"], ["yes", "t2"], ["no", "t2"]],
+            "time": [["_", "_"], ["0001-01-01 00:00:00", "0001-01-02 00:00:00"], ["_", "9999-12-30 00:00:00"],
+                     ["9999-12-30 00:00:00", "_"], ["0001-01-01 00:00:00", "9999-12-30 00:00:00"]]}
+
+
+def _flag_ok(*params):
+    return params[0] == "yes"
+
+
+def _flag_not(*params):
+    return params[0] != "yes"
+
+
+def c_fn(name):
+    from casbin import util
+    return {"flag_ok": _flag_ok, "flag_not": _flag_not, "time": util.time_match_func}[name]
+
+
+def c_model_text(how):
+    kind = mgmt.KINDS["dom"]
+    t = pdom_model_text(kind) if how == "p.dom" else kind.model_text()
+    assert "g = _, _, _\n" in t
+    return t.replace("g = _, _, _\n", "g = _, _, _, (_, _)\n")
+
+
+def c_step_domain(st):
+    return st[1][1] if st[0] in ("p+", "p-") else st[3]
+
+
+def c_apply(e, st):
+    c = st[0]
+    try:
+        if c == "p+":
+            return bool(e.add_policy(*st[1]))
+        if c == "p-":
+            return bool(e.remove_policy(*st[1]))
+        if c == "g+":
+            ok = bool(e.add_grouping_policy(*st[1:6]))
+            if ok and st[6]:
+                e.add_named_domain_link_condition_func("g", st[1], st[2], st[3], c_fn(st[6]))
+            return ok
+        if c == "g-":
+            return bool(e.remove_grouping_policy(*st[1:6]))
+        if c == "par":
+            e.set_named_domain_link_condition_func_params("g", st[1], st[2], st[3], st[4], st[5])
+            return True
+        if c == "fn":
+            e.add_named_domain_link_condition_func("g", st[1], st[2], st[3], c_fn(st[4]))
+            return True
+        if c == "q":
+            crm = e.cond_rm_map["g"]
+            if st[1] == "enforce":
+                return bool(e.enforce(st[2], st[3], st[4], st[5]))
+            if st[1] == "has_link":
+                return bool(crm.has_link(st[2], st[4], st[3]))
+            if st[1] == "roles":
+                return sorted(crm.get_roles(st[2], st[3]))
+            return sorted(map(list, e.get_permissions_for_user_in_domain(st[2], st[3])))
+    except Exception as exc:  # noqa
+        return ["raises", type(exc).__name__]
+    raise ValueError(st)
+
+
+def c_probe(e, D):
+    crm = e.cond_rm_map["g"]
+    out = []
+
+    def ask(label, f, srt=False):
+        try:
+            v = f()
+            v = sorted(map(list, v)) if srt == "rules" else (sorted(v) if srt else v)
+        except Exception as exc:  # noqa
+            v = ["raises", type(exc).__name__]
+        out.append([label, v])
+    for s_ in C_NAMES:
+        for o in C_OBJS:
+            for a in C_ACTS:
+                ask(["enforce", s_, D, o, a], lambda: bool(e.enforce(s_, D, o, a)))
+    for u in C_NAMES:
+        for r in C_NAMES:
+            if u != r:
+                ask(["cond_rm.has_link", u, r, D], lambda: bool(crm.has_link(u, r, D)))
+        ask(["cond_rm.get_roles", u, D], lambda: crm.get_roles(u, D), True)
+        ask(["cond_rm.get_users", u, D], lambda: crm.get_users(u, D), True)
+        ask(["get_permissions_for_user_in_domain", u, D], lambda: e.get_permissions_for_user_in_domain(u, D), "rules")
+    ask(["get_filtered_grouping_policy", 2, D], lambda: e.get_filtered_grouping_policy(2, D), "rules")
+    ask(["get_filtered_policy", 1, D], lambda: e.get_filtered_policy(1, D), "rules")
+    return out
+
+
+def c_enforcer(how):
+    return casbin.Enforcer(casbin.Enforcer.new_model(text=c_model_text(how)))
+
+
+def c_eval(case):
+    """-> None | (step, message, label of the query, got, want)"""
+    how, D, script = case["domain_handed_to_g_as"], case["D"], case["script"]
+    e = c_enforcer(how)
+    ref = c_enforcer(how)
+    for i, st in enumerate(script):
+        if st[0] == "probe":
+            got, want = c_probe(e, D), c_probe(ref, D)
+            for (lab, g_), (_, w_) in zip(got, want):
+                if g_ != w_:
+                    return (i, "a query in domain D differs from an enforcer that holds D's records only (conditional role "
+                               "links)", lab, g_, w_)
+                if lab[0].startswith("get_") and isinstance(g_, list) and g_[:1] != ["raises"]:
+                    k = 2 if lab[0] == "get_filtered_grouping_policy" else 1
+                    if any(rule[k] != D for rule in g_):
+                        return (i, "a domain-scoped query reports a rule recorded for another domain", lab, g_, None)
+            continue
+        if st[0] == "q":
+            c_apply(e, st)             # queries in the other domain: they build its manager
+            continue
+        c_apply(e, st)
+        if c_step_domain(st) == D:
+            c_apply(ref, st)
+    return None
+
+
+def c_make(rng, i):
+    how = "p.dom" if i % 3 == 2 else "r.dom"
+    fk = "flag" if i % 2 else "time"
+    fns = ["flag_ok", "flag_ok", "flag_not", None] if fk == "flag" else ["time", "time", "time", None]
+    pair = list(rng.choice(TENANT_PAIRS))
+    rng.shuffle(pair)
+    D, F = pair
+    links = {}            # (u, r, d) -> [p1, p2] stored
+    prules = []
+    script = []
+
+    def p_rule(d):
+        return [rng.choice(C_NAMES), d, rng.choice(C_OBJS), rng.choice(C_ACTS)]
+
+    def step(d, foreign_only):
+        x = rng.random()
+        mine = [k for k in links if k[2] == d]
+        if x < 0.22:
+            r = p_rule(d)
+            if r not in prules:
+                prules.append(r)
+                return ["p+", r]
+        if x < 0.30 and any(r[1] == d for r in prules):
+            r = rng.choice([r for r in prules if r[1] == d])
+            prules.remove(r)
+            return ["p-", r]
+        if x < 0.62 or not mine:
+            # half of the time the pair is one that the OTHER domain has assigned too
+            other = [k for k in links if k[2] != d and (k[0], k[1], d) not in links]
+            if other and rng.random() < 0.6:
+                u, r_, _ = rng.choice(other)
+            else:
+                u, r_ = rng.sample(C_NAMES, 2)
+            if (u, r_, d) in links:
+                return None
+            par = list(rng.choice(C_PARAMS[fk]))
+            links[(u, r_, d)] = par
+            return ["g+", u, r_, d, par[0], par[1], rng.choice(fns)]
+        k = rng.choice(mine)
+        if x < 0.74:
+            par = links.pop(k)
+            return ["g-", k[0], k[1], k[2], par[0], par[1]]
+        if x < 0.86 and foreign_only:
+            par = list(rng.choice(C_PARAMS[fk]))
+            return ["par", k[0], k[1], k[2], par[0], par[1]]
+        if x < 0.92 and foreign_only:
+            return ["fn", k[0], k[1], k[2], rng.choice([f for f in fns if f])]
+        return ["q", rng.choice(["enforce", "has_link", "roles", "perms"]), rng.choice(C_NAMES), d, rng.choice(C_NAMES + C_OBJS),
+                rng.choice(C_ACTS)]
+    # D first gets at least one assignment (its manager exists), then records of both domains interleave
+    for _ in range(rng.randint(3, 12)):
+        st = step(D if rng.random() < 0.5 else F, False)
+        if st and not (st[0] == "q" and st[3] == D):
+            script.append(st)
+    script.append(["probe"])
+    for _ in range(rng.randint(1, 6)):
+        st = step(F, True)
+        if st:
+            script.append(st)
+            if rng.random() < 0.3:
+                script.append(["probe"])
+    script.append(["probe"])
+    return dict(stratum="conditional-domain", level="conditional", domain_handed_to_g_as=how, condition=fk, D=D, F=F,
+                script=script)
+
+
+def stratum_conditional(chk, n):
+    rng = chk.rng
+    cnt = shared = 0
+    for i in range(n):
+        case = c_make(rng, i)
+        sc = case["script"]
+        cnt += 1
+        gl = [(st[1], st[2]) for st in sc if st[0] == "g+" and st[3] == case["D"]]
+        if any(st[0] == "g+" and st[3] == case["F"] and (st[1], st[2]) in gl for st in sc):
+            shared += 1
+        chk.count(("conditional-domain", repr(sc)) if any(st[0] not in ("probe", "q") and c_step_domain(st) == case["F"]
+                                                          for st in sc) else None)
+        v = c_eval(case)
+        if v is None:
+            continue
+        msg = v[1]
+
+        def fails(cand, _msg=msg):
+            w = c_eval(dict(case, script=cand))
+            return w is not None and w[1] == _msg
+        small = mgmt.shrink(sc[:v[0] + 1], fails)
+        case = dict(case, script=small, model=c_model_text(case["domain_handed_to_g_as"]))
+        w = c_eval(case) or v
+        chk.spec_fail(dict(case, query=w[2]), w[3], w[4], msg, None)
+        break
+    chk.traces += cnt
+    chk.extra.setdefault("strata", {})["conditional_domain"] = dict(histories=cnt, same_pair_assigned_in_both_domains=shared)
+
+
 def run(chk, n):
     rng = chk.rng
     stratum_confusable_names(chk, max(60, n // 2))
@@ -491,12 +776,24 @@ def run(chk, n):
                        key_fn=lambda k, r, o, v=variant: (k.name, v, repr(r), repr([x for x in o if x[0] < 50])))
         chk.extra["strata"][f"foreign_dom_{variant}"] = len(cases)
     run_built(chk, max(100, (n * 3) // 5))
+    run_tenants(chk, max(60, n // 3))
+    stratum_conditional(chk, max(150, n))
 
 
 def replay(chk):
     import json
     rec = json.load(open(chk.replay_file))
     c = rec.get("case") or {}
+    if c.get("level") == "conditional":
+        import sys
+        v = c_eval(c)
+        print("replay conditional-domain script:", json.dumps(c["script"]), "D =", c["D"])
+        print("  spec violation on the implementation:", v)
+        if v is not None:
+            print(f"VIOLATION property={PROP} replay={chk.replay_file}")
+            sys.exit(1)
+        print("replay passes: every query of D answers like an enforcer that holds D's records only")
+        sys.exit(0)
     if "ops" not in c:
         return mgmt.replay_case(chk, None)
     if c.get("layout") == "built":
@@ -505,8 +802,9 @@ def replay(chk):
         variant = c.get("variant", "plain")
         if not c.get("model_compared"):
             chk.oracle = None                # store-side ops / index order / renamed column are outside the Mgmt model
-        return mgmt.replay_case(chk, spec_check_built(c["D"], d_probe(kind, mgmt.Universe(kind), c["D"]),
-                                                      sort_rules=variant.startswith("fast-")),
+        uni = universe(kind, c.get("doms") or None)
+        probe = (d_probe_ext if c.get("ext_probe") else d_probe)(kind, uni, c["D"])
+        return mgmt.replay_case(chk, spec_check_built(c["D"], probe, sort_rules=variant.startswith("fast-")),
                                 impl_kwargs=impl_kwargs_for(kind, variant))
     # recover D and the probe from the recorded history: the probe is its maximal query suffix
     ops = [tuple(o) for o in c["ops"]]
@@ -545,6 +843,12 @@ def main():
                  "or refused because the foreign record lacks a column or the adapter fails); run on the plain Enforcer, on "
                  "a model whose domain column is called 'tenant', and on a FastEnforcer under every admissible index key "
                  "order; every D-query repeated after the first probe block must repeat its result")
+    chk.rule += ("; the built-state layout also on tenants whose names contain each other (update_filtered_policies naming the "
+                 "other tenant among the foreign calls, getters filtered by the domain column in the probe) and on the "
+                 "explicit-priority model with domains; conditional role links with domains (g = _, _, _, (_, _)): scripts "
+                 "interleaving records of D and of the other domain (same user -> role pair in both, different parameters / "
+                 "condition functions, later parameter changes), every query of D compared with an enforcer that holds D's "
+                 "records only")
     chk.assumptions = ["no domain-matching function registered (domain patterns are C14)",
                        "calls that are not domain-scoped by construction (delete_user, delete_role, clear_policy) are not 'calls "
                        "touching only other domains'"]
